@@ -202,6 +202,29 @@ pub fn run(rep: &mut Report) {
             }
         }
     }
+    if thorough {
+        // deeper: every (kind, result) first, then two reduced steps; all histories of length 4 over
+        // the reduced alphabet
+        let red: Vec<(BpOp, FrRes)> = ops.iter().flat_map(|o| small.iter().map(move |r| (o.clone(), r.clone()))).collect();
+        for reply_ack in [false, true] {
+            for a in &alpha {
+                for b in &red {
+                    for c in &red {
+                        run_history(&[a.clone(), b.clone(), c.clone()], reply_ack, &res, rep);
+                    }
+                }
+            }
+            for a in &red {
+                for b in &red {
+                    for c in &red {
+                        for d in &red {
+                            run_history(&[a.clone(), b.clone(), c.clone(), d.clone()], reply_ack, &res, rep);
+                        }
+                    }
+                }
+            }
+        }
+    }
     ack_bytes(rep, &res);
     coop::disable();
     rep.states = rep.outcomes.len() as u64;
@@ -209,7 +232,7 @@ pub fn run(rep: &mut Report) {
     rep.exhaustive = true;
     rep.sample(json!({"history":["ShmemMap(..) -> Errno(11)","SharedAdd(..) -> Ok(0)"],"reply_ack":true,"expect":"first call Err, second call Ok(0)"}));
     rep.sample(json!({"part":"ack_bytes","op":"SharedLookup","handler":"Errno(22)","expect_ack_value":"0xffffffffffffffea"}));
-    rep.rule = "5 request kinds x UUID / mapping-descriptor lattice x handler results {Ok(0), Ok(1), Ok(2^32), Ok(2^64-1), Err(errno in {1,2,11,22,38,2^31-1}), Err(no errno)} x REPLY_ACK on/off; all histories of length 1 and 2 and of length 3 over a reduced alphabet (all at thorough); with a raw peer in place of the proxy the acknowledgement bytes for every (kind, result, REPLY_ACK, NEED_REPLY). Non-trivial = steps whose handler call and proxy status (or absence of an acknowledgement) were verified".into();
+    rep.rule = "5 request kinds x UUID / mapping-descriptor lattice x handler results {Ok(0), Ok(1), Ok(2^32), Ok(2^64-1), Err(errno in {1,2,11,22,38,2^31-1}), Err(no errno)} x REPLY_ACK on/off; all histories of length 1 and 2 and of length 3 over a reduced alphabet (thorough: length 3 with every (kind, result) first, and all histories of length 4 over 5 kinds x 4 results); with a raw peer in place of the proxy the acknowledgement bytes for every (kind, result, REPLY_ACK, NEED_REPLY). Non-trivial = steps whose handler call and proxy status (or absence of an acknowledgement) were verified".into();
 }
 
 pub fn replay(case: &Value, rep: &mut Report) {
